@@ -310,17 +310,37 @@ HCopyReadNoop ==
 
 CopyCb(ret, dig) == Cb([name |-> "copy.read", ret |-> ret, dig |-> dig])
 
+\* what a failed read leads to when the handler propagates it (onerr = "ret"):
+\* the statement function returns the read's error
+Propagates == "onerr" \in DOMAIN Op /\ Op.onerr = "ret"
+
+CopyAbort(ev) ==
+    IF Propagates
+    THEN /\ h' = NoH
+         /\ IF h.mode = "simple"
+            THEN emit' = ev \o <<Rv(ErrAny), Rv(MsgReady)>> /\ hq' = <<>> /\ UNCHANGED skip
+            ELSE emit' = ev \o <<Rv(ErrAny)>> /\ skip' = TRUE /\ UNCHANGED hq
+    ELSE emit' = ev /\ h' = [Adv(h) EXCEPT !.copy = FALSE] /\ UNCHANGED <<hq, skip>>
+
 HCopyRead ==
     /\ Running /\ Op.op = "copyread" /\ h.copy /\ inq # <<>>
     /\ Consume
     /\ LET m == Head1 IN
-       IF m.t = "d" THEN emit' = <<CopyCb("nil", m.dig)>> /\ h' = Adv(h)
-       ELSE IF m.t \in {"H", "S"} THEN emit' = <<>> /\ h' = h      \* ignored in COPY mode
-       ELSE IF m.t = "c" THEN emit' = <<CopyCb("eof", "")>> /\ h' = [Adv(h) EXCEPT !.copy = FALSE]
-       ELSE \* CopyFail or any non-COPY message: a non-nil, non-EOF error;
-            \* the read itself reports nothing to the client
-            emit' = <<CopyCb("err", "")>> /\ h' = [Adv(h) EXCEPT !.copy = FALSE]
-    /\ UNCHANGED <<cfg, phase, ssl, mwi, cparams, eof, faulted, stmts, portals, skip, hq>>
+       IF m.t = "d" THEN emit' = <<CopyCb("nil", m.dig)>> /\ h' = Adv(h) /\ UNCHANGED <<hq, skip>>
+       ELSE IF m.t \in {"H", "S"} THEN emit' = <<>> /\ h' = h /\ UNCHANGED <<hq, skip>>   \* ignored in COPY mode
+       ELSE IF m.t = "c" THEN emit' = <<CopyCb("eof", "")>> /\ h' = [Adv(h) EXCEPT !.copy = FALSE] /\ UNCHANGED <<hq, skip>>
+       ELSE \* CopyFail or any non-COPY message: a non-nil, non-EOF error; the
+            \* read itself reports nothing to the client - the abort is reported
+            \* once, when the statement function returns the error
+            CopyAbort(<<CopyCb("err", "")>>)
+    /\ UNCHANGED <<cfg, phase, ssl, mwi, cparams, eof, faulted, stmts, portals>>
+
+\* the client's side ends inside COPY: the read ends the stream or fails
+HCopyReadEOF ==
+    /\ Running /\ Op.op = "copyread" /\ h.copy /\ inq = <<>> /\ eof
+    /\ \/ emit' = <<CopyCb("eof", "")>> /\ h' = [Adv(h) EXCEPT !.copy = FALSE] /\ UNCHANGED <<hq, skip>>
+       \/ CopyAbort(<<CopyCb("err", "")>>)
+    /\ UNCHANGED <<cfg, phase, ssl, mwi, cparams, inq, eof, faulted, stmts, portals>>
 
 \* The statement function returns.
 HReturn ==
@@ -535,7 +555,7 @@ Preamble == DoStartup \/ DoSSLRequest \/ DoCancel \/ DoStartupReject
             \/ DoPassword \/ DoNotPassword
             \/ WriteServerParams \/ Middleware \/ FirstReady
 
-Handler == HRow \/ HComplete \/ HEmpty \/ HCopyIn \/ HCopyReadNoop \/ HCopyRead \/ HReturn
+Handler == HRow \/ HComplete \/ HEmpty \/ HCopyIn \/ HCopyReadNoop \/ HCopyRead \/ HCopyReadEOF \/ HReturn
 
 Command == DoDiscard \/ DoQuery \/ StartNext \/ DoParse \/ DoBind \/ DoDescribe \/ DoExecute
            \/ DoClose \/ DoFlush \/ DoSync \/ DoStrayCopy \/ DoTerminate
